@@ -47,6 +47,19 @@ def sign_set(o, target: Rat):
     return allowed, finite
 
 
+def validator_switches(repo):
+    """Every call in the package that can switch attrs validators off (expected: none)."""
+    import re as _re
+    off = []
+    for mod in repo.modules.values():
+        for n in ast.walk(mod.tree):
+            if isinstance(n, ast.Call) and _re.search(r"(set_run_validators|validators\.set_disabled|validators\.disabled)$", ast.unparse(n.func)):
+                off.append("%s:%d calls %s" % (mod.relpath, n.lineno, ast.unparse(n.func)))
+            elif isinstance(n, ast.Call) and isinstance(n.func, ast.Name) and n.func.id in ("set_run_validators", "set_disabled"):
+                off.append("%s:%d calls %s" % (mod.relpath, n.lineno, n.func.id))
+    return off
+
+
 def run(ck):
     repo = ck.repo
     ck.explanation = EXPL
@@ -74,22 +87,7 @@ def run(ck):
     ck.ob("Z1", "package", "no statement assigns Composition.p after construction", C.module.relpath, not hits,
           "; ".join("%s in %s" % (f.loc(n), f.qualname) for f, n, _ in hits))
     # the validator is only a defence while it runs: nobody in the package may switch attrs validators off
-    from ..callgraph import CallGraph
-    cg = CallGraph(repo)
-    SWITCHES = ("attr.validators.set_disabled", "attr.validators.disabled", "attr.set_run_validators", "attrs.validators.set_disabled",
-                "attrs.validators.disabled", "attr._config.set_run_validators")
-    off = []
-    for k, f in cg.funcs.items():
-        for dotted, node in cg.externals[k]:
-            if dotted in SWITCHES or dotted.endswith((".set_run_validators", "validators.set_disabled", "validators.disabled")):
-                off.append("%s calls %s" % (f.loc(node), dotted))
-    import re as _re
-    for mod in repo.modules.values():
-        for n in ast.walk(mod.tree):
-            if isinstance(n, ast.Call) and _re.search(r"(set_run_validators|validators\.set_disabled|validators\.disabled)$", ast.unparse(n.func)):
-                w = "%s:%d calls %s" % (mod.relpath, n.lineno, ast.unparse(n.func))
-                if not any(x.startswith("%s:%d" % (mod.relpath, n.lineno)) for x in off):
-                    off.append(w)
+    off = validator_switches(repo)
     ck.ob("Z1", "package", "attrs validators are never switched off", "pyvaporation/", not off, "; ".join(off)[:400])
     funcs = process_functions(repo)
     ck.floor("process functions", len(funcs), 4)
